@@ -9,6 +9,7 @@ ignored because of a Surrogate-Control targeted at this surrogate (`ignoreCacheC
 -/
 import SquidModel.Cache.ReusableLemmas
 import SquidModel.Cache.ReusableListLemmas
+import SquidModel.Cache.ReusableNotModified
 
 namespace SquidModel.C11
 open SquidModel SquidModel.Cache
@@ -178,11 +179,7 @@ theorem wellformed_lines_no_store_recognised (lines : List (Bytes × List Bytes)
   split
   · unfold getCcPerLine
     rw [foldl_items_flatMap]
-    have hit : (lines.map (·.1)).flatMap items = lines.flatMap (·.2) := by
-      rw [List.flatMap_map]
-      apply List.flatMap_congr
-      intro l' hl'; exact items_of_renders _ _ (h l' hl')
-    rw [hit]
+    rw [flatMap_items_of_renders lines h]
     have hn : ((lines.flatMap (·.2)).foldl Cc.step {}).noStore = true := (foldl_noStore_iff _ _).2 (Or.inr hmem)
     exact ⟨_, by simp [any_of_noStore _ hn], hn⟩
   · unfold getCcJoined
@@ -202,11 +199,7 @@ theorem wellformed_lines_private_recognised (lines : List (Bytes × List Bytes))
   split
   · unfold getCcPerLine
     rw [foldl_items_flatMap]
-    have hit : (lines.map (·.1)).flatMap items = lines.flatMap (·.2) := by
-      rw [List.flatMap_map]
-      apply List.flatMap_congr
-      intro l' hl'; exact items_of_renders _ _ (h l' hl')
-    rw [hit]
+    rw [flatMap_items_of_renders lines h]
     have hn : ((lines.flatMap (·.2)).foldl Cc.step {}).priv = true := (foldl_priv_iff _ _).2 (Or.inr hmem)
     exact ⟨_, by simp [any_of_priv _ hn], hn⟩
   · unfold getCcJoined
@@ -280,6 +273,31 @@ theorem quote_leak_hides_no_store_counterexample : Gen.Reusable.ccParsedPerLine 
     quoteLeakScenario.replyCc = none ∧
     (observe quoteLeakScenario).decision.answer = .cachePositively ∧
     (observe quoteLeakScenario).kind = .hit ∧ (observe quoteLeakScenario).seq = 1 := by decide
+
+/-! ### A 304 that carries no-store (three-request scenario) -/
+
+/-- first response `max-age=0` with a Last-Modified (stored, stale at once) -/
+def notModifiedScenario : Scenario := { quoteLeakScenario with respCc := [[109, 97, 120, 45, 97, 103, 101, 61, 48]] }
+
+/- Full statement (false for the pinned code): in every three-request scenario whose revalidation is answered by a 304
+   carrying no-store or private, the third request reaches the origin. -/
+
+/-- (While the 304 branch of handleIMSReply does not look at the 304's Cache-Control.) The revalidation is answered with a
+    304 carrying `no-store, max-age=3600`; the entry is refreshed, stays public and the third request is a hit. -/
+theorem not_modified_no_store_counterexample : Gen.Reusable.notModifiedHonoursNoStore = false →
+    observeNotModified notModifiedScenario
+      [[110, 111, 45, 115, 116, 111, 114, 101, 44, 32, 109, 97, 120, 45, 97, 103, 101, 61, 51, 54, 48, 48]] = (.reval, .hit) := by decide
+
+/-- Proved part: once the 304 branch honours the 304's own Cache-Control (flag set by the translator from the source), a
+    revalidated entry whose 304 has no-store or private as parsed is not reused: the third request is a miss. -/
+theorem not_modified_forbidden_not_reused_partial (sc : Scenario) (nmCc : List Bytes) (cc : Cc)
+    (hflag : Gen.Reusable.notModifiedHonoursNoStore = true) (hk : (observe sc).kind = .reval)
+    (hcc : getCc (nmCc.map fieldValue) = some cc) (h : cc.noStore = true ∨ cc.priv = true) :
+    observeNotModified sc nmCc = (.reval, .miss) := by
+  unfold observeNotModified
+  rw [hk]
+  simp only [hflag, hcc, Bool.true_and]
+  rcases h with h | h <;> simp [h]
 
 /-! ### Non-vacuity -/
 
